@@ -66,6 +66,8 @@ def _strategy(cfg, compat):
         'smart': st.booleans(), 'complete': st.booleans(),
         'order': st.lists(st.sampled_from(['html', 'latex', 'beamer', 'memoir', 'opml']), max_size=4),
         'lang': st.sampled_from([0, 0, 0, 1, 2, 3, 4, 5, 6]),
+        'atail': st.sampled_from([None, None, 'à', 'Р', '…']),
+        'hlevel': st.sampled_from([None, None, None, ('Base Header Level', '2'), ('Base Header Level', '3'), ('LaTeX Header Level', '2'), ('LaTeX Header Level', '3'), ('Base Header Level', '5')]),
     })
 
 
@@ -370,7 +372,19 @@ def check(case, ctx):
     complete = case['complete'] and bool(doc.get('meta')) and not case.get('compat')
     if not complete:
         doc = dict(doc, meta=None)
+    if case.get('hlevel') and not case.get('compat'):
+        # header levels shifted through metadata: the sectioning commands / frames / outline levels change, the text and the nesting rules do not
+        doc = dict(doc, meta=(doc.get('meta') or []) + [list(case['hlevel'])])
+        ctx.cls('header_level_metadata')
     src = gdoc.ser_doc(doc)
+    if case.get('atail'):
+        # headings, metadata values and code spans that END in a character whose last UTF-8 byte is 0xA0 / 0x85 (white space in Latin-1):
+        # trimming at the end of these slots works on bytes
+        t_ = case['atail']
+        src = re.sub(r'(?m)^(#{1,6} .*[a-z0-9])$', lambda m: m.group(1) + t_, src)
+        src = re.sub(r'(?m)^((?:Title|Author|Keywords|Copyright): .*[a-z0-9])$', lambda m: m.group(1) + t_, src)
+        src = re.sub(r'(?m)^([a-z0-9][^\n]*[a-z0-9])(\n(?:=+|-+)\n)', lambda m: m.group(1) + t_ + m.group(2), src)
+        ctx.cls('slots_ending_in_byte_a0')
     if '\x00' in src:
         return
     ext = EXT['NOTES'] | EXT['CRITIC'] | (EXT['SMART'] if case['smart'] else 0) | (EXT['COMPLETE'] if complete else EXT['SNIPPET'])
